@@ -479,6 +479,10 @@ def replay_file(prop: str, mod: Any, path: str) -> int:
 		if r is not None:
 			print(r)
 			return 1 if str(r).startswith('violated') else 0
+	if c is None and d.get('inputs') is not None:
+		# a violation found by a bounded twin / closed table: the file carries the failing program, history or table entry; the scenario is replayed by re-running the check
+		print('replay: recorded witness of ' + str(d.get('obligation', ''))[:160] + ':\n' + json.dumps(d['inputs'], ensure_ascii=False)[:3000] + f'\n(re-run `./check {prop}` on the same tree to reproduce it)')
+		return 0
 	if c is None or d.get('inputs') is None:
 		print(f'replay: no concrete input recorded for obligation {d["obligation"]} ({d["clause"]}); solver output follows\n{d["solver_output"]}')
 		return 0
